@@ -1,4 +1,5 @@
 import GoLevel.Proofs.LSMCompactView
+import GoLevel.Proofs.PickInputs
 /-!
 # Property C03 — snapshots and iterators keep returning the contents at creation
 
@@ -201,6 +202,97 @@ example : Maintenance bytewise 5 exV (exV'.apply bytewise (replaceEdit 1 [tD] []
           rw [this] at hx; cases hx)
     (by decide)
 
+/-! ## the side condition on `base`, derived from the code (`compaction.baseLevelForKey` and its cursor)
+
+`build_preserves_view` assumes (H2): `base k = true` only if no source searched after the compacted ones holds
+`k`.  The Go function is *stateful*: per level `≥ src+2` it keeps a cursor `tPtrs[level]` that only moves
+forward, which is right only because `tableCompactionBuilder.run` asks for the keys of a merged iterator, i.e.
+in non-decreasing order.  Model: `Pick.Compaction.baseLevelForKey`, `Pick.baseRun`, `Pick.buildC`
+(`GoLevel/Model/Pick.lean`); invariant `Pick.CursorInv` and proofs in `GoLevel/Proofs/PickBase.lean`. -/
+
+/-- **`base_level_for_key_sound`** (P2).  On a well-formed version, a compaction fresh from `newCompaction`
+asked for a non-decreasing sequence of user keys answers `true` for a key **iff** no table of a level
+`≥ src+2` has the key within `[imin.ukey, imax.ukey]` — so a `true` answer means no entry of such a level has
+that user key (H2) — and all answers together are those of the cursor-free specification. -/
+theorem base_level_for_key_sound {c : UCmp} (hl : LawfulUCmp c) (o : Pick.Limits) (v : Version)
+    (hv : v.wfB c = true) (src : Nat) (t0 : List Table) (cm : Pick.Compaction)
+    (hcm : Pick.newCompaction c o v src t0 = some cm) (ks : List Bytes) (hs : ks.Pairwise c.le) :
+    (Pick.baseRun c cm ks).1 = ks.map (baseLevelForKey c v src) ∧
+    ∀ k b, (k, b) ∈ ks.zip (Pick.baseRun c cm ks).1 →
+      (b = true ↔ ∀ j, src + 2 ≤ j → ∀ t ∈ v.lvl j, t.overlapsKey c k = false) ∧
+      (b = true → ∀ j, src + 2 ≤ j → ∀ x ∈ Level.entries (v.lvl j), x.ukey ≠ k) := by
+  have hw := (Version.wfB_iff_WFi hl v).1 hv
+  have hinit := fun k => Pick.newCompaction_cursorInv c o v src t0 cm hcm k
+  obtain ⟨hv', hs', _⟩ := hinit []
+  have heq : (Pick.baseRun c cm ks).1 = ks.map (baseLevelForKey c v src) := by
+    have := Pick.baseRun_eq hl cm (by rw [hv']; exact hw) ks hs (fun k _ => (hinit k).2.2)
+    rw [hv', hs'] at this
+    exact this
+  refine ⟨heq, ?_⟩
+  intro k b hkb
+  rw [heq] at hkb
+  have hb : b = baseLevelForKey c v src k := by
+    clear heq hs
+    induction ks with
+    | nil => cases hkb
+    | cons a as ih =>
+      simp only [List.map_cons, List.zip_cons_cons, List.mem_cons, Prod.mk.injEq] at hkb
+      rcases hkb with ⟨rfl, rfl⟩ | h
+      · rfl
+      · exact ih h
+  subst hb
+  exact ⟨Pick.baseLevelForKey_iff c v src k, fun hb => baseLevelForKey_sound hl v hw src k hb⟩
+
+/-- non-vacuity on the 3-level `exV` (level 2 = {`F` = `[2]..[2]`}), level-0 compaction: `[1]` and `[3]` are at
+their base level, `[2]` is not -/
+example :
+    ((Pick.newCompaction bytewise ⟨fun _ => 100, fun _ => 100, fun _ => 100⟩ exV 0 [tA]).map
+      (fun cm => (Pick.baseRun bytewise cm [[1], [2], [2], [3]]).1)) = some [true, false, false, true] := by decide
+
+/-- **The order matters.**  `Pick.bV`: level 2 = {`[4]..[6]`, `[8]..[9]`}.  Asked for `[7]` and then `[5]`, the
+stateful function answers `true` for `[5]` although the first table holds it (the cursor has moved past it):
+the invariant `Pick.CursorInv` fails for `[5]`, and a deletion marker of `[5]` would be dropped. -/
+example :
+    (Pick.baseRun bytewise Pick.bCm [[7], [5]]).1 = [true, true] ∧ baseLevelForKey bytewise Pick.bV 0 [5] = false ∧
+    ¬ Pick.CursorInv bytewise Pick.bV 0 (Pick.bCm.baseLevelForKey bytewise [7]).2.tPtrs [5] :=
+  Pick.baseLevelForKey_out_of_order
+
+/-- **`builder_cursor_preserves_view`**: `tableCompactionBuilder.run` with the *stateful* `baseLevelForKey`,
+evaluated exactly when Go's `switch` evaluates it, on the sorted merged input of a compaction fresh from
+`newCompaction`: it keeps exactly what the model builder keeps, and — `rest` being entries of levels `≥ src+2`,
+older per user key than the input — every reader at `s ≥ minSeq` sees the same.  No hypothesis on `base` is left. -/
+theorem builder_cursor_preserves_view {c : UCmp} (hl : LawfulUCmp c) (o : Pick.Limits) (v : Version)
+    (hv : v.wfB c = true) (src : Nat) (t0 : List Table) (cm : Pick.Compaction)
+    (hcm : Pick.newCompaction c o v src t0 = some cm) (minSeq : Nat) (es rest : List Entry)
+    (hs : sortedB c es = true) (hrest : ∀ r ∈ rest, ∃ j, src + 2 ≤ j ∧ r ∈ Level.entries (v.lvl j))
+    (hnewer : newerThanB c es rest = true) (k : Bytes) (s : Nat) (hms : minSeq ≤ s) :
+    (Pick.buildC c minSeq cm {} es).1 = build c minSeq (baseLevelForKey c v src) {} es ∧
+    view c ((Pick.buildC c minSeq cm {} es).1 ++ rest) k s = view c (es ++ rest) k s := by
+  have hw := (Version.wfB_iff_WFi hl v).1 hv
+  have hinit := fun k => Pick.newCompaction_cursorInv c o v src t0 cm hcm k
+  obtain ⟨hv', hs', _⟩ := hinit []
+  have hES := (sortedB_iff hl es).1 hs
+  have heq : (Pick.buildC c minSeq cm {} es).1 = build c minSeq (baseLevelForKey c v src) {} es := by
+    have := Pick.buildC_eq_build hl minSeq cm (by rw [hv']; exact hw) es
+      (Pick.ukeys_sorted_of_ESorted hl es hES) (fun e _ => (hinit e.ukey).2.2) {}
+    rw [hv', hs'] at this
+    exact this
+  refine ⟨heq, ?_⟩
+  rw [heq]
+  apply build_preserves_view hl minSeq _ es rest hs hnewer _ k s hms
+  intro x _ hb r hr
+  obtain ⟨j, hj, hrj⟩ := hrest r hr
+  exact baseLevelForKey_sound hl v hw src x.ukey hb j hj r hrj
+
+/-- non-vacuity: the level-0 compaction of `exV` (inputs `A`, `B`, `C`), `minSeq = 9`: the tombstone of `[1]` is
+dropped (rule (B), `[1]` is at its base level), everything under it by rule (A); the cursor ends at `[0, 0, 0]`
+because `[2]`, `[3]` are never asked for -/
+example :
+    (Pick.newCompaction bytewise ⟨fun _ => 100, fun _ => 100, fun _ => 100⟩ exV 0 [tA]).map
+      (fun cm => ((Pick.buildC bytewise 9 cm {} (mergeAll bytewise (cm.s0 ++ cm.s1))).1,
+        (Pick.buildC bytewise 9 cm {} (mergeAll bytewise (cm.s0 ++ cm.s1))).2.tPtrs)) =
+      some ([e 2 6 1 0xb2, e 3 4 1 0xc1], [0, 0, 0]) := by decide
+
 /-! ## flush -/
 
 /-- a memdb flush moves the frozen buffer's entries into a table: together with whatever else is
@@ -224,4 +316,5 @@ def GoLevel.C03.theorems : List String :=
   ["GoLevel.C03.mergeAll_sorted_perm", "GoLevel.C03.build_subset", "GoLevel.C03.build_sorted",
    "GoLevel.C03.build_preserves_view", "GoLevel.C03.build_newest_cases",
    "GoLevel.C03.compaction_preserves_lookup", "GoLevel.C03.trivial_move_preserves_view",
-   "GoLevel.C03.maintenance_preserves_view", "GoLevel.C03.flush_preserves_view"]
+   "GoLevel.C03.maintenance_preserves_view", "GoLevel.C03.flush_preserves_view",
+   "GoLevel.C03.base_level_for_key_sound", "GoLevel.C03.builder_cursor_preserves_view"]
